@@ -44,13 +44,16 @@ func c17schema(pkg string) *spec.File {
 			{Name: "AlphaCreate", In: in, Out: out, HTTP: &spec.HTTP{Path: "/items", Verb: 2}, Headers: []spec.Header{{Name: "X-M-Create", Type: "integer", Required: true}}},
 			{Name: "AlphaUpdate", In: in, Out: out, HTTP: &spec.HTTP{Path: "/items/{path_a}", Verb: 3}, Headers: []spec.Header{{Name: "X-M-Update", Type: "string", Format: "uuid", Required: true}}},
 			{Name: "AlphaFetch", In: get, Out: out, HTTP: &spec.HTTP{Path: "/items/{path_a}", Verb: 1}},
-			{Name: "AlphaPatch", In: in, Out: out, HTTP: &spec.HTTP{Path: "/items/{path_a}/part", Verb: 5}},
+			// X-Kind: ONE header name declared with three different specs on three routes of the package
+			// (integer here, uuid on AlphaMove, free string on BetaCreate): a verdict about a value belongs to
+			// the route's own declaration
+			{Name: "AlphaPatch", In: in, Out: out, HTTP: &spec.HTTP{Path: "/items/{path_a}/part", Verb: 5}, Headers: []spec.Header{{Name: "X-Kind", Type: "integer", Required: true}}},
 			// the same request message under another, larger set of path variables (and the variables named in
 			// another order than the message declares them)
-			{Name: "AlphaMove", In: in, Out: out, HTTP: &spec.HTTP{Path: "/moves/{path_b}/from/{path_a}", Verb: 3}},
+			{Name: "AlphaMove", In: in, Out: out, HTTP: &spec.HTTP{Path: "/moves/{path_b}/from/{path_a}", Verb: 3}, Headers: []spec.Header{{Name: "x-kind", Type: "string", Format: "uuid", Required: true}}},
 		}},
 		{Name: "BetaService", BasePath: spec.S("/beta"), Headers: []spec.Header{{Name: "X-Beta", Type: "boolean", Required: true}, {Name: "X-Span", Type: "string"}, {Name: "X-Baggage", Type: "string"}}, Methods: []*spec.Method{
-			{Name: "BetaCreate", In: in, Out: out, HTTP: &spec.HTTP{Path: "/things", Verb: 2}},
+			{Name: "BetaCreate", In: in, Out: out, HTTP: &spec.HTTP{Path: "/things", Verb: 2}, Headers: []spec.Header{{Name: "X-Kind", Type: "string", Required: true}}},
 			{Name: "BetaRemove", In: get, Out: out, HTTP: &spec.HTTP{Path: "/things/{path_a}", Verb: 4}, Headers: []spec.Header{{Name: "X-M-Remove", Type: "string", Required: true}}},
 		}},
 	}
@@ -78,7 +81,7 @@ type c17call struct {
 
 type c17route struct {
 	Svc, RPC, ReqType string
-	Required          [][2]string // header name -> valid value
+	Required          [][2]string // header name -> valid value (several candidates separated by '|': one is drawn per call)
 	HasPath           bool
 	Verb, Path        string // path with %s for path_a
 }
@@ -87,9 +90,9 @@ var c17routes = []c17route{
 	{"AlphaService", "AlphaCreate", "EchoReq", [][2]string{{"X-Alpha", "a"}, {"X-M-Create", "7"}}, false, "POST", "/alpha/items"},
 	{"AlphaService", "AlphaUpdate", "EchoReq", [][2]string{{"X-Alpha", "a"}, {"X-M-Update", "123e4567-e89b-12d3-a456-426614174000"}}, true, "PUT", "/alpha/items/%s"},
 	{"AlphaService", "AlphaFetch", "EchoGetReq", [][2]string{{"X-Alpha", "a"}}, true, "GET", "/alpha/items/%s"},
-	{"AlphaService", "AlphaPatch", "EchoReq", [][2]string{{"X-Alpha", "a"}}, true, "PATCH", "/alpha/items/%s/part"},
-	{"AlphaService", "AlphaMove", "EchoReq", [][2]string{{"X-Alpha", "a"}}, true, "PUT", "/alpha/moves/%[2]s/from/%[1]s"},
-	{"BetaService", "BetaCreate", "EchoReq", [][2]string{{"X-Beta", "true"}}, false, "POST", "/beta/things"},
+	{"AlphaService", "AlphaPatch", "EchoReq", [][2]string{{"X-Alpha", "a"}, {"X-Kind", "7|-12|123456"}}, true, "PATCH", "/alpha/items/%s/part"},
+	{"AlphaService", "AlphaMove", "EchoReq", [][2]string{{"X-Alpha", "a"}, {"X-Kind", "123e4567-e89b-12d3-a456-426614174000"}}, true, "PUT", "/alpha/moves/%[2]s/from/%[1]s"},
+	{"BetaService", "BetaCreate", "EchoReq", [][2]string{{"X-Beta", "true"}, {"X-Kind", "7|abc|123e4567-e89b-12d3-a456-426614174000|1.5"}}, false, "POST", "/beta/things"},
 	{"BetaService", "BetaRemove", "EchoGetReq", [][2]string{{"X-Beta", "false"}, {"X-M-Remove", "r"}}, true, "DELETE", "/beta/things/%s"},
 }
 
@@ -97,7 +100,11 @@ var c17routes = []c17route{
 // emitted middleware (headers, URL binding, body decoding, rule validation) and accepted requests
 // include ones that leave every field at its default, so state kept from an earlier request of the
 // same route (a recycled message, a cached table) shows in the echo.
-var c17kinds = []string{"normal", "normal", "normal", "normal", "normal", "normal", "normal", "normal", "omit-header", "omit-header", "long", "default", "default", "partial", "raw-bad", "raw-ok"}
+var c17kinds = []string{"normal", "normal", "normal", "normal", "normal", "normal", "normal", "normal", "omit-header", "omit-header", "long", "default", "default", "partial", "raw-bad", "raw-ok", "bad-header", "bad-header"}
+
+// c17badKind: values for X-Kind that the integer and the uuid declaration reject and the free-string
+// declaration of another route accepts (and is sent) in the same burst.
+var c17badKind = []string{"abc", "1.5", "123e4567-e89b-12d3-a456-426614174000x"}
 
 func c17mk(rt c17route, kind, id string, i int, rnd func() int64) c17call {
 	cl := c17call{Idx: i, Kind: kind, Svc: rt.Svc, RPC: rt.RPC, ReqType: rt.ReqType, ID: id, Payload: fmt.Sprintf("p%d-%x", i, rnd()), N: rnd() - (1 << 62), Want: "ok"}
@@ -121,8 +128,18 @@ func c17mk(rt c17route, kind, id string, i int, rnd func() int64) c17call {
 		cl.Payload, cl.N = "", 0
 	}
 	cl.OmitOwn = omit
+	bad := kind == "bad-header" && (rt.RPC == "AlphaPatch" || rt.RPC == "AlphaMove")
+	if bad {
+		cl.Want = "validation"
+	}
 	for _, kv := range rt.Required {
 		if kv[0] != omit {
+			if alts := strings.Split(kv[1], "|"); len(alts) > 1 {
+				kv[1] = alts[int(uint64(rnd())%uint64(len(alts)))]
+			}
+			if bad && kv[0] == "X-Kind" {
+				kv[1] = c17badKind[int(uint64(rnd())%uint64(len(c17badKind)))]
+			}
 			cl.Hdr = append(cl.Hdr, kv)
 		}
 	}
@@ -227,7 +244,7 @@ func c17sequences(c *Ctx, label string) []c17call {
 		out = append(out, c17mk(rt, kind, fmt.Sprintf("%s-%d", label, i), i, r.Int63))
 	}
 	for _, rt := range c17routes {
-		for _, rej := range []string{"long", "raw-bad", "omit-header", "normal"} {
+		for _, rej := range []string{"long", "raw-bad", "omit-header", "bad-header", "normal"} {
 			add(rt, rej)
 			add(rt, "default")
 			add(rt, "partial")
